@@ -39,11 +39,13 @@ def snapshot_sweep(c, quick):
     recs = [json.loads(l) for l in p.stdout.splitlines() if l.startswith("{")]
     tags = {r["owner"]: r for r in recs if r["type"] == "tags"}
     spare = [r for r in recs if r["type"] == "spare"]
+    allslices = [r for r in recs if r["type"] in ("spare", "slice")]
     totals = next((r for r in recs if r["type"] == "totals"), {})
     c.cov["registry"] = {"cells": totals.get("cells"), "slices": totals.get("slices"), "workloads": totals.get("workloads"),
                          "snapshots": totals.get("snapshots"), "regimes": totals.get("regimes"), "addons": totals.get("addons"),
                          "slices_with_spare_capacity": [{"path": r["path"], "len": r["len"], "cap": r["cap"], "elem": r["elem"]}
-                                                        for r in spare]}
+                                                        for r in spare],
+                         "every_registry_slice_path_len_cap": [[r["path"], r["len"], r["cap"]] for r in allslices]}
     # model predictions: for every workload that reached validation, the regime's tag array after
     # supportedTags(regime, addons) in the shipped model (copying = 0)
     keyid = {}
@@ -294,7 +296,7 @@ class Standalone:
         return res
 
 
-def gen_stream(rng, docs, signed_docs, pubkey, n):
+def gen_stream(rng, docs, signed_docs, pubkey, n, privkey=None):
     """A request stream of mixed actions and latencies, plus the ending. Returns (requests, tail, ending)."""
     reqs = []
     sleeps = ["0ms", "1ms", "3ms", "10ms", "25ms", "60ms", "150ms"]
@@ -318,6 +320,8 @@ def gen_stream(rng, docs, signed_docs, pubkey, n):
             r = {"action": "verify", "payload": {"data": rng.choice(signed_docs + docs[:1]), "publickey": pubkey}}
         elif y < 0.78:
             r = {"action": "sign", "payload": {"data": rng.choice(docs)}}
+            if privkey is not None:   # `gobl bulk` has no default key: the request carries it
+                r["payload"]["privatekey"] = privkey
         elif y < 0.86:
             r = {"action": "correct", "payload": {"data": rng.choice(docs),
                                                   "options": base64.b64encode(rng.choice([b'{"type":"credit-note"}', b'{"type":"corrective","reason":"x"}', b'{}'])).decode()}}
@@ -477,7 +481,7 @@ def _bulk_streams(c, quick, srv, keyfile, pubfile, pubkey, tmp):
     cases = []
     for k in range(nstreams):
         n = rng.randint(5, 60) if quick or rng.random() < 0.9 else rng.randint(100, 400)
-        reqs, tail, pid = gen_stream(rng, docs, signed, pubkey, n)
+        reqs, tail, pid = gen_stream(rng, docs, signed, pubkey, n, None if srv else json.load(open(keyfile)))
         cases.append((reqs, tail, pid))
     lines, metas = [], []
     reordered = 0
